@@ -139,6 +139,7 @@ type TupleV []Value
 type BigV struct {
 	V    *sym.Term
 	Bits int
+	Poison bool // computed during package init outside the model width: any later use ends the path as unsupported
 }
 
 type OpaqueV struct {
@@ -311,7 +312,7 @@ func copyVal(v Value) Value {
 		}
 		return n
 	case *BigV:
-		return &BigV{V: x.V, Bits: x.Bits}
+		return &BigV{V: x.V, Bits: x.Bits, Poison: x.Poison}
 	case TupleV:
 		n := make(TupleV, len(x))
 		for i, f := range x {
